@@ -362,7 +362,7 @@ def alphabet_for(fields, mode, i):
 
 # ---- enums -----------------------------------------------------------------------------------
 def variant_kinds():
-    return ["unit", "unit_doc", "unit_short", "unit_long", "named", "tuple", "command_fields", "command_unit", "unit_hidden"]
+    return ["unit", "unit_doc", "unit_short", "unit_long", "named", "tuple", "command_fields", "command_unit", "unit_hidden", "unit_env_short", "unit_env_only", "command_head_foot"]
 
 def emit_enum(i, kinds, mode):
     it = Item()
@@ -414,6 +414,21 @@ def emit_enum(i, kinds, mode):
         elif kind == "command_fields":
             src += "    /// command description %d\n    #[bpaf(command)]\n    %s {\n        #[bpaf(short)]\n        inner%d: bool,\n    },\n" % (k, vn, k)
             lets += '    let alt%d = {\n        let inner%d = short(\'i\').switch();\n        construct!(%s::%s { inner%d })\n    }\n    .to_options()\n    .descr("command description %d")\n    .command(%s);\n' % (k, k, ty, vn, k, k, rs_str(kb))
+            alpha += [kb, "-i"]
+            paths.append([kb])
+        elif kind == "unit_env_short":
+            # env plus an explicit name: exactly the names spelled out, no implicit long name
+            src += '    /// env and short %d\n    #[bpaf(env("BPAFMC_DERIVE_V%d"), short(\'%s\'))]\n    %s,\n' % (k, k, "wxyz"[k], vn)
+            lets += '    let alt%d = env("BPAFMC_DERIVE_V%d").short(\'%s\').help("env and short %d").req_flag(%s::%s);\n' % (k, k, "wxyz"[k], k, ty, vn)
+            alpha += ["-" + "wxyz"[k], "--" + kb]
+        elif kind == "unit_env_only":
+            # env alone: the implicit long name stays
+            src += '    #[bpaf(env("BPAFMC_DERIVE_W%d"))]\n    %s,\n' % (k, vn)
+            lets += '    let alt%d = env("BPAFMC_DERIVE_W%d").long(%s).req_flag(%s::%s);\n' % (k, k, rs_str(kb), ty, vn)
+            alpha.append("--" + kb)
+        elif kind == "command_head_foot":
+            src += '    #[bpaf(command, header("variant header %d"), footer("variant footer %d"))]\n    %s {\n        #[bpaf(short)]\n        inner%d: bool,\n    },\n' % (k, k, vn, k)
+            lets += '    let alt%d = {\n        let inner%d = short(\'i\').switch();\n        construct!(%s::%s { inner%d })\n    }\n    .to_options()\n    .header("variant header %d")\n    .footer("variant footer %d")\n    .command(%s);\n' % (k, k, ty, vn, k, k, k, rs_str(kb))
             alpha += [kb, "-i"]
             paths.append([kb])
         elif kind == "command_unit":
